@@ -154,3 +154,12 @@ Example ex_partial_hyps :
   removes_okb (w_trace (fst (ex_run (Some 11)))) = true /\
   exists_path (w_fs (fst (ex_run (Some 11)))) ex_nd = false.
 Proof. vm_compute. repeat split; reflexivity. Qed.
+
+(* the hypotheses of loc_file_copies are met: a reference that needs cleaning is copied and rewritten *)
+Example ex_loc_file :
+  let r := run first_chooser None
+               (loc_file (mkArgs ["s"] ["new"]) (mkLc ["s"; "t"] [] ["new"; "t"]) "zz/../dep.yaml")
+               (world0 ex_fs) in
+  snd r = OOk "dep.yaml" /\
+  lookup ["new"; "t"; "dep.yaml"] (w_fs (fst r)) = Some (EFile (CRaw 4)).
+Proof. vm_compute. split; reflexivity. Qed.
